@@ -15,7 +15,9 @@ RULE = ('Generated histories of emit(to=sid, callback=cb_k) and call() to '
         'already used one, a never issued one (0, huge), or one outstanding '
         'for another client / for the same transport on another namespace, '
         'duplicate ACKs processed while the callback is still running, '
-        'callbacks that raise (contained once, never re-invoked), '
+        'callbacks that raise (contained once, never re-invoked), emits '
+        'with callback that cannot be sent (unencodable payload, failing '
+        'transport send), '
         'and with disconnects (3 kinds) and reconnects; for call(): generated '
         'orders of {right ACK, wrong ACK, client disconnect, timeout}. '
         'Oracle (model of outstanding callbacks per sid): ids unique among a '
@@ -65,6 +67,11 @@ def strategy(tier):
                                'data': st.sampled_from([0, '', b'x', ()])}),
         st.fixed_dictionaries({'op': st.just('emit_cb'), 'c': ci,
                                'data': st.just('d')}),
+        # an emit with callback that cannot be delivered: the payload cannot
+        # be encoded, or the transport's send raises
+        st.fixed_dictionaries({'op': st.just('emit_fail'), 'c': ci,
+                               'why': st.sampled_from(['unencodable',
+                                                       'send'])}),
         st.fixed_dictionaries({'op': st.just('ack'), 'c': ci, 'sel': sel,
                                'args': args, 'dup': st.booleans(),
                                'raises': st.just(False)}),
@@ -198,12 +205,17 @@ def _run(case, w):
                     outstanding.pop(i, None)
             w.lose(c['t'])
 
+    leaked = {}     # client -> ids issued to emits that were never sent
+    last_id = {}    # client -> last id seen on the wire / issued
+
     def pick_id(ci, sel):
         kind, j = sel['kind'], sel['j']
-        out = outstanding.get(ci, {})
-        if kind == 'own' and out:
-            ids = sorted(out)
+        own = outstanding.get(ci, {})
+        if kind == 'own' and own:
+            ids = sorted(own)
             return ids[j % len(ids)], 'own'
+        # ids issued to emits that were never sent are not "foreign" ids
+        out = set(own) | set(leaked.get(ci, ()))
         if kind == 'used' and used.get(ci):
             cand = [i for i in used[ci] if i not in out]
             if cand:
@@ -262,8 +274,52 @@ def _run(case, w):
                                 'id %r already outstanding for client %d'
                                 % (pid, ci))
             outstanding.setdefault(ci, {})[pid] = kk
+            last_id[ci] = pid
             reconnected_since_emit.discard((c['t'], c['ns']))
             check_quiet(step, 'emit_cb')
+        elif k == 'emit_fail':
+            w.recv_all()
+            real_send = sio.eio.send
+            if op['why'] == 'send':
+                def failing(*a, **kw):
+                    raise OSError('transport send failed')
+                if aio:
+                    async def afailing(*a, **kw):
+                        raise OSError('transport send failed')
+                    sio.eio.send = afailing
+                    real_sp = sio.eio.send_packet
+                    sio.eio.send_packet = afailing
+                else:
+                    sio.eio.send = failing
+                data = 'x'
+            else:
+                data = {1, 2}       # json cannot encode a set
+            try:
+                w.do(sio.emit('ev', data, to=c['sid'], namespace=c['ns'],
+                              callback=lambda *a: cb_log.append(
+                                  ('never-sent', a))))
+            except (TypeError, OSError):
+                pass        # the application is told; nothing else changes
+            finally:
+                sio.eio.send = real_send
+                if op['why'] == 'send' and aio:
+                    sio.eio.send_packet = real_sp
+            w.h.swallowed[:] = []
+            if hasattr(w.h, 'bg_errors'):
+                w.h.bg_errors[:] = []
+            for t, pkts in w.recv_all().items():
+                if pkts:
+                    raise Violation('failed-emit-sent-something', repr(pkts))
+            # its id was issued: the next one on the wire is one further
+            if ci in last_id:
+                leaked.setdefault(ci, set()).add(last_id[ci] + 1)
+                last_id[ci] += 1
+            else:
+                leaked.setdefault(ci, set()).add(1)
+                last_id[ci] = 1
+            labels['emit_failed'] = True
+            labels['nontrivial'] = True
+            check_quiet(step, 'emit_fail')
         elif k == 'ack':
             pid, kind = pick_id(ci, op['sel'])
             kk = None
@@ -330,6 +386,7 @@ def _run(case, w):
                 if len(pkts) != 1 or type(pkts[0]['id']) is not int:
                     raise Violation('call-frame', repr(pkts))
                 state['id'] = pkts[0]['id']
+                last_id[ci] = state['id']
                 if state['id'] in outstanding.get(ci, {}):
                     raise Violation('ack-id-not-unique', 'call id %r'
                                     % state['id'])
